@@ -525,6 +525,31 @@ def run(case) -> dict:
                     return None
                 return super()._lookup(host, port)
 
+    if alter[0] == "epm-port-135":
+        # the adversary owns the unauthenticated endpoint-mapper hop entirely: its mapper announces port 135 itself as the key
+        # service endpoint and serves the ISD_KEY interface there, without any security context, with a GetKey reply of its own
+        from simworld import peers as _peers
+
+        def adv_epm(server, conn, req):
+            state["applied"] = True
+            return ("response", rpce.ndr64_ept_map_response([rpce.std_tower(rpce.ISD_KEY_IF, rpce.NDR20, 135)], 0))
+
+        def adv_getkey(server, conn, req):
+            adv_world = W.World(0)
+            adv_world.clock = conn.world.clock
+            adv = refdc.RefDC(adv_world, [adv_root_key(plan["root_keys"][0])], caller_sids={SID} if alter[1] == "seed" else set())
+            op = plan["ops"][-1]
+            pos = (-1, -1, -1) if op["op"] == "protect" else tuple(op["blob"]["pos"])
+            hr, env = adv.answer(dtyp.target_sd(SID), None, *pos, {})
+            state["served_cleartext_getkey"] = True
+            return ("response", rpce.ndr64_getkey_response(env, hr))
+
+        class AdvWorld(orig_world):  # noqa: F811
+            def add_route(self, host, port, peer):
+                if port == 135:
+                    peer = _peers.RpcServer({rpce.EPM_IF: adv_epm, rpce.ISD_KEY_IF: adv_getkey}, None, {"sec_addr": "135"}, "adversary")
+                super().add_route(host, port, peer)
+
     planmod.W.World = AdvWorld
     try:
         tr = P.execute_plan(plan)
@@ -541,7 +566,7 @@ def run(case) -> dict:
     adv_rk = adv_root_key(plan["root_keys"][0])
 
     def V(cond, detail):
-        what = alter[0] + ("-" + str(alter[1]) if alter[0] in ("strip", "lenfix", "mitm-handshake", "fragment", "connect-flap") else "")
+        what = alter[0] + ("-" + str(alter[1]) if alter[0] in ("strip", "lenfix", "mitm-handshake", "fragment", "connect-flap", "epm-port-135") else "")
         return common.violation("C16", what, fl, cond, opname, "",
                                 f"{detail}; alteration={alter} ctx={ctxname} op={opname} outcome={out.brief()} {out.exc!r}")
 
@@ -600,7 +625,7 @@ class C16(common.Check):
             "of an earlier connection replayed; handshake man-in-the-middle (security trailers removed from bind_ack / alter_context_resp, every "
             "later server PDU replaced by the adversary's cleartext Response); PFC_LAST_FRAG cleared on the sealed reply and a cleartext "
             "continuation fragment appended; two requests on one connection through the raw client (first reply bit-flipped, second replaced by "
-            "a cleartext forgery; first reply untouched, second replaced by the first one again); two or three caller threads protecting at the "
+            "a cleartext forgery; an adversary mapper that announces port 135 itself as the key endpoint and serves GetKey there without any security context; first reply untouched, second replaced by the first one again); two or three caller threads protecting at the "
             "same time (sync API, deterministic thread scheduler biased to the instants after socket reads and unwraps) while the adversary answers "
             "the unauthenticated endpoint-mapper request of the later lookups with a cleartext Response carrying its own GetKey reply. Non-trivial = every case (each alters the reply); distinct = distinct tuple.")
     components = {"client": "real (public API, RPC client, AuthenticationProvider)", "security context": "real pyspnego NTLM / Negotiate->NTLM (initiator and acceptor) and StubCtx (stub)",
@@ -608,7 +633,7 @@ class C16(common.Check):
                   "transport / entropy / clock": "simulated"}
     assumptions = ["outcome-based: a correct client may reject earlier or later or tolerate a change in an unprotected field, as long as the result equals the authentic one",
                    "pyspnego NTLM signs data_readonly buffers too, so 'header signing off' is only observable with StubCtx"]
-    required_fired = ("alter_strip", "alter_flip", "alter_lenfix", "alter_subst", "alter_replay", "alter_mitm-handshake", "alter_connect-flap", "alter_fragment", "alter_tworeq", "alter_tworeq_replay", "alter_threads", "thread_overlap", "epm_reply_replaced", "raw_request_level", "rejected")
+    required_fired = ("alter_strip", "alter_flip", "alter_lenfix", "alter_subst", "alter_replay", "alter_mitm-handshake", "alter_connect-flap", "alter_epm-port-135", "alter_fragment", "alter_tworeq", "alter_tworeq_replay", "alter_threads", "thread_overlap", "epm_reply_replaced", "raw_request_level", "rejected")
 
     def exhaustive(self, tier):
         return tier == "thorough"
@@ -633,6 +658,7 @@ class C16(common.Check):
                     for kind in ("seed", "pub"):
                         out.append([ctxname, "p256", opname, fl, ["mitm-handshake", kind]])
                         out.append([ctxname, "p256", opname, fl, ["connect-flap", kind]])
+                        out.append([ctxname, "p256", opname, fl, ["epm-port-135", kind]])
                     for s in range(3):
                         out.append([ctxname, "p256", opname, fl, ["subst", s]])
                     base = baseline(ctxname, "p256", opname, fl)
